@@ -247,7 +247,19 @@ def streams(ctx):
                          "random: %d sequences of length 8..40 (<= 5 live senders, 3 waker ids, ~3%% ops on dead handles)"
                          % (len(enum), lx, nrand))
     st.n_enum = len(enum)
-    return [st]
+    # the other public entry points: Sink for Sender (poll_ready / start_send / poll_flush; poll_close before a sender is dropped)
+    # and Receiver::recv() — same cases, same model
+    enum2 = enum16([], INIT, min(lx, 5))
+    rnd2 = rnd[:len(rnd) // 3]
+    st2 = explicit_stream(ctx, enum2 + rnd2,
+                          "the same sequences (%d enumerated of length <= %d, %d random) with every send through Sink::poll_ready/start_send/"
+                          "poll_flush, Sink::poll_close before every sender drop and every receive as one poll of a fresh recv() future"
+                          % (len(enum2), min(lx, 5), len(rnd2)), exhaustive=False)
+    st2.name = "c16sink"
+    st2.mode = (["c16sink"], ["c16"])
+    st2.to_coq = None
+    st2.n_enum = 0
+    return [st, st2]
 
 
 def custom(ctx):
